@@ -334,3 +334,94 @@ class BoolEncode(_BoolCodec):
             ok = self.is_ctor(base, "Bytes", 1) and base.fields["args"][0] == b"\x00" and self.const(idx) == 0 \
                 and isinstance(v, SObj) and v.cls is self.pt.ScratchLoad and v.fields["var"] is var
         ctx.oblige("setbit-of-a-single-zero-byte-at-bit-0-with-the-own-value", z3.BoolVal(bool(ok)))
+
+
+# ---- _encode_bool_sequence (pyteal/ast/abi/bool.py): semantic loop contract ---------------------------------------------------------
+I_ = z3.IntSort()
+BITS = z3.Function("bitsOf", I_, z3.ArraySort(I_, z3.BoolSort()))   # denotation of a byte-string expression: bit j (AVM getbit order) is set
+BLEN = z3.Function("byteLenOf", I_, I_)                              # ... and its length in bytes
+TRUTH = z3.Function("truthOf", I_, z3.BoolSort())                    # a uint64 expression evaluates to non-zero
+GETOF = z3.Function("getOf", I_, I_)                                 # Bool value -> the expression its get() returns
+INTVAL = z3.Function("intValueOf", I_, I_)
+
+
+class EncodeBoolSequence(Contract):
+    """For every number n of Bool values: the returned expression denotes a byte string of ceil(n/8) bytes whose bit j (getbit order:
+    most significant bit of byte 0 first - the ARC-4 packing) is the truth of values[j].get() for j < n and 0 for j >= n, and every
+    setbit it executes addresses a bit inside the string (index < 8 * length: setbit fails otherwise).
+    Callees by their AVM meaning (fragment catalogue / spec AVM): Bytes(0x00 * m) = m zero bytes; SetBit(b, Int(i), v) = b with bit i := truth(v),
+    same length, defined iff i < 8 * len(b)."""
+    target = "pyteal.ast.abi.bool._encode_bool_sequence"
+
+    def __init__(self):
+        import pyteal as pt
+        from pyteal.ast.abi import bool as B
+        from pyvc.interp import SymRepeat
+        from pyvc.engine import LoopSpec
+        self.pt, self.B, self.SymRepeat = pt, B, SymRepeat
+        self.raises_only = ()
+        self.fields, self.var_kinds = {}, {}
+        self.inline_ok = ()
+        self.callees = {pt.Bytes: self.c_bytes, pt.Int: self.c_int, pt.SetBit: self.c_setbit, B.Bool.__dict__["get"]: self.c_get}
+        self.loops = {("_encode_bool_sequence", 0): LoopSpec(inv=self.inv)}
+
+    def c_bytes(self, I, args, kwargs):
+        a = args[0]
+        if not (isinstance(a, self.SymRepeat) and a.unit == b"\x00"):
+            raise Unsupported("Bytes(...) of something else than 0x00 * length")
+        t = I.ctx.fresh_ref(self.pt.Expr, "zeros")
+        j = z3.Int("jz!")
+        I.ctx.assume(BLEN(t.term) == z3.If(a.count > 0, a.count, 0))
+        I.ctx.assume(z3.ForAll([j], z3.Not(z3.Select(BITS(t.term), j))))
+        return t
+
+    def c_int(self, I, args, kwargs):
+        t = I.ctx.fresh_ref(self.pt.Expr, "int")
+        I.ctx.assume(INTVAL(t.term) == args[0])
+        I.ctx.oblige("Int-constant-is-a-uint64", z3.And(args[0] >= 0, args[0] < 2 ** 64))
+        return t
+
+    def c_get(self, I, args, kwargs):
+        return SRef(GETOF(args[0].term), self.pt.Expr)
+
+    def c_setbit(self, I, args, kwargs):
+        base, idx, val = args
+        if not all(isinstance(x, SRef) for x in args):
+            raise Unsupported("SetBit on non-reference operands")
+        i = INTVAL(idx.term)
+        I.ctx.oblige("setbit-index-lies-inside-the-string", z3.And(i >= 0, i < 8 * BLEN(base.term)))
+        t = I.ctx.fresh_ref(self.pt.Expr, "setbit")
+        I.ctx.assume(BLEN(t.term) == BLEN(base.term))
+        I.ctx.assume(BITS(t.term) == z3.Store(BITS(base.term), i, TRUTH(val.term)))
+        return t
+
+    def setup(self, ctx, I):
+        vals = stamp(SList(REF(self.B.Bool), name="values"))
+        vals.frozen = True
+        ctx.assume(z3.And(vals.length >= 0, vals.length <= 2 ** 63 - 1))    # a Python sequence: len() <= sys.maxsize (type invariant of the input)
+        ctx.ghost.update(vals=vals)
+        return {"args": [vals]}
+
+    def spec(self, e, k, n_bytes, vals):
+        j = z3.Int("jb!")
+        want = z3.If(z3.And(j >= 0, j < k), TRUTH(GETOF(z3.Select(vals.arr, j))), z3.BoolVal(False))
+        return [("length-is-ceil-n-over-8", z3.And(BLEN(e) == n_bytes, 8 * n_bytes >= vals.length, z3.Or(n_bytes == 0, 8 * (n_bytes - 1) < vals.length))),
+                ("bit-j-is-value-j-and-later-bits-are-zero", z3.ForAll([j], z3.Select(BITS(e), j) == want))]
+
+    def inv(self, ctx, env, it):
+        vals = ctx.ghost["vals"]
+        e = env["expr"]
+        if not isinstance(e, SRef):
+            raise Unsupported("expr is not an expression reference")
+        return self.spec(e.term, it.k, env["length"], vals)
+
+    def post(self, ctx, I, outcome, st):
+        vals = ctx.ghost["vals"]
+        if outcome[0] != "return":
+            ctx.oblige("never-raises", z3.BoolVal(False))
+            return
+        r = outcome[1]
+        if not isinstance(r, SRef):
+            raise Unsupported("result is not an expression reference")
+        for name, g in self.spec(r.term, vals.length, BLEN(r.term), vals):
+            ctx.oblige(name, g)
